@@ -298,7 +298,10 @@ def impl_grp(f, obs):
     return "|".join(out)
 
 
-def impl_ff(f, obs):
+def impl_ff(f, obs, checkpoint=None):
+    """checkpoint = (j, how): before drawing operation j the builder is USED once already (how 0: converted to a
+    shape, how 1: its shape offsets are read) and then drawn on further; the result judged is the final conversion,
+    which must be the same as for a builder drawn in one go"""
     if len(f) < 6:
         return "badcase"
     sx, sy = p_round_arg(f[0]), p_round_arg(f[1])
@@ -328,7 +331,14 @@ def impl_ff(f, obs):
         def flush(close):
             fb.add_line_segments(list(run), close=close)
             del run[:]
-        for op in ops:
+        for j, op in enumerate(ops):
+            if checkpoint is not None and j == checkpoint[0] % max(1, len(ops)):
+                if run:
+                    flush(False)
+                if checkpoint[1] == 0:
+                    fb.convert_to_shape(ox, oy)
+                else:
+                    fb.shape_offset_x, fb.shape_offset_y
             if op[0] == "L":
                 run.append((op[1], op[2]))
             elif op[0] == "C":
@@ -371,7 +381,17 @@ def impl(case, obs=None):
         return impl_grp(f[1:], obs)
     if f[0] == "ff":
         return impl_ff(f[1:], obs)
+    if f[0] == "ffk" and len(f) > 3:
+        return impl_ff(f[3:], obs, (int(f[1]), int(f[2])))
     return "badcase"
+
+
+def plain(c):
+    """the case as the model and the oracle see it: a builder used at a checkpoint (ffk j how ...) draws the same
+    shape as one drawn in one go (ff ...)"""
+    if c and c[0] == "ffk":
+        return ("ff",) + tuple(c[3:])
+    return c
 
 
 # ------------------------------------------------------------------------------- oracle
@@ -681,6 +701,9 @@ def gen_ff(tier, rng):
             if rng.random() < 0.7:
                 ops.append("C")
         cases.append(("ff", enc_num(sx), enc_num(sy), enc_scale(xs), enc_scale(ys), ox, oy) + tuple(ops))
+        if i % 6 == 0 and len(ops) >= 2:
+            # the same builder used once (converted, or its offsets read) part-way through the drawing
+            cases.append(("ffk", rng.randint(0, len(ops) - 1), i // 6 % 2, enc_num(sx), enc_num(sy), enc_scale(xs), enc_scale(ys), ox, oy) + tuple(ops))
     return cases
 
 
@@ -735,7 +758,7 @@ def canonical():
 def klass(case, out):
     if out == "badcase":
         return "malformed"
-    return {"conn": "connector-history", "grp": "group-history", "ff": "freeform"}[case[0]]
+    return {"conn": "connector-history", "grp": "group-history", "ff": "freeform", "ffk": "freeform-builder-used-midway"}[case[0]]
 
 
 def nontrivial(case, out, obs):
@@ -747,7 +770,7 @@ def nontrivial(case, out, obs):
     if case[0] == "grp":
         # a member was added below the top-level group
         return any(len(cmd[1]) >= 2 and t is not None for cmd, t in obs)
-    if case[0] == "ff":
+    if case[0] in ("ff", "ffk"):
         o = obs[0] if obs else {}
         if "hdr" not in o:
             return False
@@ -759,7 +782,7 @@ def nontrivial(case, out, obs):
 def run(ck, tier, rng):
     ck.build = coq_build("C17")
     valid = canonical() + gen_conn(tier, rng) + gen_grp(tier, rng) + gen_ff(tier, rng)
-    cases = valid + gen_malformed(tier, rng, valid)
+    cases = valid + gen_malformed(tier, rng, [c for c in valid if c[0] != "ffk"])
     impl_out = []
     depth_seen = 0
     for c in cases:
@@ -771,7 +794,7 @@ def run(ck, tier, rng):
             ck.dist["with-exception"] = ck.dist.get("with-exception", 0) + 1
         if c and c[0] == "grp" and o != "badcase":
             depth_seen = max([depth_seen] + [len(cmd[1]) + (1 if cmd[0] == "grp" else 0) for cmd, t in obs if t is not None])
-        oracle(ck, c, o, obs)
+        oracle(ck, plain(c), o, obs)
     for c in (cases[5], cases[2000], valid[-1]) + tuple(c for c in valid if c[0] == "grp")[:2] + tuple(
             c for c in cases[len(valid):])[20:23]:
         ck.sample([str(x) for x in c][:40], limit=10)
@@ -779,7 +802,7 @@ def run(ck, tier, rng):
     oracle_concrete = len(ck.violations)
     diffs = 0
     if ck.build.ok:
-        model_out = run_model("C17", [[str(x) for x in c] if c else [""] for c in cases])
+        model_out = run_model("C17", [[str(x) for x in plain(c)] if c else [""] for c in cases])
         first = None
         for c, mo, io in zip(cases, model_out, impl_out):
             if not c:
@@ -808,7 +831,8 @@ def run(ck, tier, rng):
              "edges of the ST_Coordinate ranges; groups: random histories of 2-22 additions of sp/textbox/picture/connector/empty "
              "group/freeform at random existing group paths, nesting to depth %d, negative and zero coordinates, a tenth with "
              "out-of-range or negative sizes; freeform: random builders with 0-4 contours, tie / fractional / negative / repeated "
-             "vertices, int and float scales (uniform and non-uniform, 4%% extreme); malformed wire cases by mutation. "
+             "vertices, int and float scales (uniform and non-uniform, 4%% extreme), every sixth builder also used once part-way "
+             "through the drawing (converted to a shape, or its offsets read) and then drawn on; malformed wire cases by mutation. "
              "non-trivial = a connector history in which a flip changed, a group history adding below a top-level group, a freeform "
              "with a fractional vertex, a move-to or a non-uniform scale" % (2 if tier == "quick" else 3, 4 if tier == "quick" else 5),
         trusted_base=TB, assumptions=ASSUME,
